@@ -151,6 +151,8 @@ func threadRun(L *LState) {
 			L.closeUpvalues(0)
 			if parent := L.Parent; parent != nil {
 				if L.wrapped {
+					// the dead thread's registers are of no use any more and may be full
+					L.SetTop(0)
 					L.Push(lv)
 					L.G.CurrentThread = parent
 					L.Parent = nil
